@@ -354,8 +354,8 @@ class LoopSpec(object):
             if ex.feasible(hx, i.r == n.r):
                 hx.assume(i.r == n.r)
                 out.extend(ex.exec_block(node.orelse, hx) if node.orelse else [(hx, NORMAL)])
-            # 2b. body: i < n
-            hb = h
+            # 2b. body: i < n   (run on a fork: the invariant's closures hold on to the head state's heap)
+            hb = h.fork()
             if ex.feasible(hb, i.r < n.r):
                 hb.assume(i.r < n.r)
                 c = hb.heap.list_at(it.owner, it.field, i, self.elem_cls)
